@@ -289,6 +289,9 @@ func TestC07(t *testing.T) {
 					return // end of input is not a token of the file once the closing }} is gone
 				}
 			}
+			if e.what == "object-evaluated-in-template" && pre == "" {
+				pre = "x " // a lone expression is a typed position at some keys, not a template
+			}
 			val := pre + text
 			style := rapid.SampledFrom([]ye.Style{ye.Auto, ye.Single, ye.Double}).Draw(rt, "style")
 			if strings.Contains(val, "'") {
